@@ -480,10 +480,12 @@ def stop_ignored(fx):
         if ret is None:
             continue
         r = deep_strip(ret)
-        if not (isinstance(r, tuple) and r and r[0] == "const" and r[1] in (0, False)):
+        if isinstance(r, tuple) and r and r[0] == "const" and r[1] in (1, True):
             continue
+        # any other answer (a constant `false`, or a comparison with the clock) is only acceptable if this path has read the flag
+        # as clear - or hands the flag itself back as (part of) the answer
         flag_clear = any(_is_force_cond(c) and v == 0 for c, v in conds)
-        if flag_clear:
+        if flag_clear or _is_force_cond(ret):
             continue
         # the throttle: the deciding (last) condition compares the node-count parameter
         others = [(c, v) for c, v in conds if not _mentions_other_param(c)]
@@ -975,6 +977,9 @@ def rule_noblock(fx, rep, ex, arms, names=("IsReady", "Quit", "Position", "Debug
 
 U = "src/engine/uci/mod.rs"
 MUTANTS = [
+    {"name": "stop flag consulted only for searches without a time limit (seed C09-7a)", "expect": "C05-STOPFLAG/poll",
+     "edits": [("src/engine/search/time_control.rs", "        if self.is_force_stopped() {\n            return true;\n        }\n\n        self.next_check_at = nodes_visited + params::CHECK_TERMINATION_NODE_FREQUENCY;\n\n        match self.time_control {\n            TimeControl::Clocks(_) => self.elapsed() > self.hard_stop,\n            TimeControl::ExactTime(time) => self.elapsed() > time,\n            TimeControl::Infinite => false,\n        }",
+                "        self.next_check_at = nodes_visited + params::CHECK_TERMINATION_NODE_FREQUENCY;\n\n        match self.time_control {\n            TimeControl::Clocks(_) => self.elapsed() > self.hard_stop,\n            TimeControl::ExactTime(time) => self.elapsed() > time,\n            TimeControl::Infinite => self.is_force_stopped(),\n        }")]},
     {"name": "clock arguments of go parsed as unsigned numbers (seed C05-7b)", "expect": "C05-GOARGS/wtime",
      "edits": [("src/engine/uci/parser.rs", "command_with_argument(\"wtime\", nom::character::complete::i64, |wtime| {\n                    GoCmdArgumentsModifyFn::new(move |acc: &mut GoCmdArguments| {\n                        acc.wtime = Some(parse_duration(wtime));",
                 "command_with_argument(\"wtime\", nom::character::complete::u32, |wtime| {\n                    GoCmdArgumentsModifyFn::new(move |acc: &mut GoCmdArguments| {\n                        acc.wtime = Some(parse_duration(i64::from(wtime)));")]},
